@@ -89,3 +89,14 @@ def mc_must_fail(ctx, sub, module, cfg, what, expect=None, timeout=600):
         raise __import__("vlib").Trouble("vacuity: %s should violate %s but TLC reports %s" % (what, expect, r.violated))
     ctx.extra.setdefault("teeth", []).append({"model": what, "violates": r.violated, "states_to_counterexample": r.distinct})
     ctx.log("teeth %s/%s: violates %s as expected" % (module, cfg, r.violated))
+
+
+def gc_tv(ctx, sub, kind, runs, ops):
+    """'no retained garbage' observed directly: payloads with finalizers (vh gc), judged by common/Trace_GC.tla"""
+    import vlib
+    tf = ctx.path("gc-%s.ndjson" % kind)
+    rc, o = ctx.run_vh(["gc", "-kind", kind, "-out", tf, "-runs", str(runs), "-ops", str(ops)], timeout=900)
+    reps = ctx.harness_report(o, "gc " + kind)
+    if rc != 0 or not reps:
+        raise vlib.Trouble("gc driver %s died (rc=%s):\n%s" % (kind, rc, o[-3000:]))
+    return validate(ctx, sub, "Trace_GC", "tv_gc.cfg", tf, runs, label="gc " + kind)
